@@ -2,7 +2,9 @@ import DmrVerif.Driver.Loop
 import DmrVerif.Driver.Crc
 import DmrVerif.Driver.CrcStream
 import DmrVerif.Driver.CrcConfigs
+import DmrVerif.Driver.TranslBitsBytes
 
-/-! model driver for property C05 -/
+/-! model driver for property C05 (`t.bb.*`: the byte-order helpers of the CRC-32 front end translated from the source,
+`Gen/TranslBitsBytes.lean`) -/
 
-def main : IO Unit := Dmr.Driver.runMain [Dmr.Driver.crcOp, Dmr.Driver.crcStreamOp, Dmr.Driver.crcConfigsOp]
+def main : IO Unit := Dmr.Driver.runMain [Dmr.Driver.crcOp, Dmr.Driver.crcStreamOp, Dmr.Driver.crcConfigsOp, Dmr.Driver.translBitsBytesOp]
